@@ -177,6 +177,8 @@ def seeded_file(rng):
         children = [routine(binds, name=p) for p in procs]
         for c in children:
             c['typedefs'] = []
+            if binds:
+                c['kind'] = 'subroutine'     # type-bound procedures invoked by CALL
         return {'kind': 'module', 'name': n, 'imports': imports(), 'typedefs': typedefs, 'interfaces': itfs,
                 'calls': [], 'children': children}
 
